@@ -71,3 +71,9 @@ type Layer struct {
 	Name string
 	Top  Shape
 }
+
+// Handle refers to a T without holding one (declared outside the analysed
+// file: the generators handle instantiations, not generic declarations).
+type Handle[T any] struct {
+	ID int64
+}
